@@ -98,7 +98,10 @@ def gen_cases(ctx, configs, probes):
     # (1) exhaustive single crashes for some configurations (all of them in the thorough tier)
     keys = sorted(by_key)
     if thorough:
-        chosen = keys
+        # half of the 24 configurations per run (all 8 Drawer settings or a random half, plus LBFGS ones), seed-dependent
+        drawers = [k for k in keys if k.startswith("drawer")]
+        lb = [k for k in keys if k.startswith("lbfgs")]
+        chosen = rng.sample(drawers, min(4, len(drawers))) + rng.sample(lb, min(8, len(lb)))
     else:
         drawers = [k for k in keys if k.startswith("drawer")]
         lb = [k for k in keys if k.startswith("lbfgs")]
@@ -122,7 +125,7 @@ def gen_cases(ctx, configs, probes):
     for u in (1, 2):
         cases.append(history({"search": "lbfgs", "updates": u, "remove_files": 1, "csv": 0, "keep_internal": 1, "db": 1}, [FULL, FULL, FULL]))
     # (2) random multi-crash histories over every configuration
-    n_multi = 1500 if thorough else 90
+    n_multi = 700 if thorough else 90
     for i in range(n_multi):
         k = rng.choice(keys)
         c, _ = by_key[k]
@@ -462,7 +465,7 @@ def run(ctx):
                 "search_internal kept) + a list of runs of the same fit, each run to its end or killed at a symbolic mutation point "
                 "(occ-th event of a kind on a file role; killed before it, with the file created empty, or with the file cut to half). "
                 "Single crashes are enumerated exhaustively over every mutation event of a fresh run and of a completed re-run for the "
-                "chosen configurations (all 24 in the thorough tier); multi-crash histories are random. Every history ends with two "
+                "chosen configurations (2 in the quick tier, 12 of the 24 in the thorough tier, seed-dependent); multi-crash histories are random. Every history ends with two "
                 "uninterrupted runs; two DatabasePaths histories (uninterrupted runs through a database session) are judged by the oracle "
                 "only. Non-trivial = some run was really killed and a later run ran to its end (database histories: at least two runs); "
                 "distinct = distinct (settings, run list)")
